@@ -56,7 +56,7 @@ func resetRoot(root string) {
 }
 
 func newWorld(root string, r *Record) *world {
-	w := &world{root: root, n: r.NPkgs}
+	w := &world{root: root, n: r.NPkgs, real: r.Real}
 	for i := 0; i < r.NPkgs; i++ {
 		w.ver[i] = 1
 		w.deps[i] = append([]int{}, r.Deps[i]...)
@@ -234,18 +234,27 @@ func (s *seqRun) find(op Op, idx int) {
 	}
 	var f io.ReadCloser
 	var err error
-	if s.call("find", func() { f, err = s.impl.Find(filepath.Join(s.w.root, "work"), path) }) {
-		return
-	}
 	content := ""
-	if err == nil {
-		content = readAll(f)
-	} else if f != nil {
-		s.out.Observe("find_returned_stream_and_error")
+	tag := fmt.Sprintf("op %d Find(%s)", idx, path)
+	if op.Kind == "import" {
+		// the lookup as gogen's clients perform it: a packages.Importer backed by this cache
+		tag = fmt.Sprintf("op %d Importer.Import(%s) with this cache", idx, path)
+		if s.call("import", func() { content, err = importVia(s.impl, filepath.Join(s.w.root, "work"), path, op.A%2 == 1) }) {
+			return
+		}
+		s.out.Probe("lookup_through_importer")
+	} else {
+		if s.call("find", func() { f, err = s.impl.Find(filepath.Join(s.w.root, "work"), path) }) {
+			return
+		}
+		if err == nil {
+			content = identOf(s.w.real, readAll(f))
+		} else if f != nil {
+			s.out.Observe("find_returned_stream_and_error")
+		}
 	}
 	nw := s.consumeStub()
-	s.obs = append(s.obs, fmt.Sprintf("%d find %s -> %q %s lists=%d", idx, path, content, errStr(err), len(nw)))
-	tag := fmt.Sprintf("op %d Find(%s)", idx, path)
+	s.obs = append(s.obs, fmt.Sprintf("%d %s %s -> %q %s lists=%d", idx, op.Kind, path, content, errStr(err), len(nw)))
 	if op.Kind == "find_unknown" {
 		s.applyListing(nw)
 		if err == nil {
@@ -334,6 +343,39 @@ func (s *seqRun) find(op Op, idx int) {
 	s.applyListing(nw)
 	if err == nil && content != truth {
 		s.violate("wrong-data", "%s: returned %q, the package is %q (entry state uncertain after a damaged cache file)", tag, content, truth)
+	}
+}
+
+// importNoCache: a packages.Importer without a cache lists the package on every import
+// (packages/imp.go findExport), so what it returns is always current.
+func (s *seqRun) importNoCache(op Op, idx int) {
+	path := pkgName(op.Pkgs[0] % s.w.n)
+	if op.Fault != "" {
+		s.w.planFault(op.Fault)
+	}
+	var content string
+	var err error
+	if s.call("import", func() { content, err = importVia(nil, filepath.Join(s.w.root, "work"), path, op.A%2 == 1) }) {
+		return
+	}
+	nw := s.consumeStub()
+	s.obs = append(s.obs, fmt.Sprintf("%d import_nocache %s -> %q %s lists=%d", idx, path, content, errStr(err), len(nw)))
+	tag := fmt.Sprintf("op %d Importer.Import(%s) without cache", idx, path)
+	truth := s.w.stateID(pkgIndex(path))
+	if len(nw) != 1 {
+		s.violate("nocache-import-list-count", "%s ran the listing command %d times (a cache-less importer has nothing to answer from)", tag, len(nw))
+		return
+	}
+	if nw[0].Fault != "" {
+		s.out.Fault(nw[0].Fault)
+	}
+	s.out.Probe("import_without_cache")
+	if err == nil && content != truth {
+		s.violate("wrong-data", "%s: imported %q, the package is %q", tag, content, truth)
+		return
+	}
+	if err != nil && nw[0].Fault == "" {
+		s.violate("fresh-listing-error", "%s: the listing succeeded, yet error %v", tag, err)
 	}
 }
 
@@ -638,8 +680,10 @@ func execSeqOps(r *Record, root string, after func(s *seqRun)) *core.Outcome {
 		shape = append(shape, op.Kind+"!"+op.Fault+op.IOFault)
 		s.hist = append(s.hist, fmt.Sprintf("%d %s %v %s %s %d %d %d", idx, op.Kind, op.Pkgs, op.Fault, op.IOFault, op.Slot, op.A, op.B))
 		switch op.Kind {
-		case "find", "find_unknown":
+		case "find", "find_unknown", "import":
 			s.find(op, idx)
+		case "import_nocache":
+			s.importNoCache(op, idx)
 		case "prepare":
 			s.prepare(op, idx)
 		case "bump":
